@@ -373,7 +373,8 @@ func runSCIONServer(ctx context.Context, log *slog.Logger, mtrcs *scionServerMet
 								authMAC,
 							)
 							if err != nil {
-								panic(err)
+								log.LogAttrs(ctx, slog.LevelInfo, "failed to authenticate packet", slog.Any("error", err))
+								continue
 							}
 							authenticated = subtle.ConstantTimeCompare(scion.PacketAuthOptMAC(authOpt), authMAC) != 0
 							if !authenticated {
